@@ -191,7 +191,15 @@ def M(x, ncol=None):
 def flowgrid(draw):
     nr, nc = draw(st.integers(1, 6)), draw(st.integers(1, 6))
     codes = st.sampled_from([0, 1, 2, 4, 8, 16, 32, 64, 128, 3, -1, 255])
-    fd = draw(st.lists(codes, min_size=nr * nc, max_size=nr * nc))
+    if draw(st.integers(0, 2)) == 0:
+        # channels: every cell holds the same direction (long chains, layers
+        # of one cell), a few cells redrawn
+        main = draw(st.sampled_from([1, 4, 16, 64, 2, 32]))
+        fd = [main] * (nr * nc)
+        for _ in range(draw(st.integers(0, 2))):
+            fd[draw(st.integers(0, nr * nc - 1))] = draw(codes)
+    else:
+        fd = draw(st.lists(codes, min_size=nr * nc, max_size=nr * nc))
     return {"shape": [nr, nc], "fd": fd}
 
 
@@ -588,7 +596,24 @@ def catch_case(draw):
     n = g["shape"][0] * g["shape"][1]
     g["outlet"] = draw(cell(n))
     g["inlets"] = [draw(cell(n)) for _ in range(draw(st.integers(0, 3)))]
-    g["nval"] = draw(st.sampled_from([0, 1, 2, 3, 4, 4 * n + 8, 4 * n + 8]))
+    g["nval"] = draw(st.one_of(
+        st.sampled_from([0, 1, 2, 3, 4, 4 * n + 8, 4 * n + 8]),
+        st.integers(0, n + 2)))
+    if draw(st.integers(0, 2)) == 0:
+        # buffer sizes at and around what the delineation needs: the number
+        # of cells draining directly into the outlet, and the whole area
+        from vf.props import gis_common as G_
+        down = G_.down_model(np.array(g["fd"]).reshape(g["shape"]))
+        # (the outlet with the largest area: several layers upstream)
+        sizes = [len(G_.area_model(down, c, set())) for c in range(n)]
+        o = int(np.argmax(sizes))
+        g["outlet"] = o
+        g["inlets"] = []
+        direct = int(np.sum(down == o))
+        area = sizes[o]
+        g["nval"] = draw(st.sampled_from(
+            [direct, direct + 1, direct + 1, direct + 2, max(area - 1, 0),
+             area, area + 1]))
     g["cells"] = [draw(cell(n)) for _ in range(draw(small))]
     g["area"] = draw(st.lists(st.integers(-1, n), min_size=0, max_size=4,
                               unique=True))
